@@ -44,6 +44,12 @@ impl ZipStreamVisitor for V {
             m.insert("content".into(), abs_bytes(&buf));
         }
         self.evs.push(m);
+        // the sanitised paths of the entry as the front-to-back reader presents it (name taken from the LOCAL header)
+        let mut p = crate::rexec::path_facts(file.name(), file.enclosed_name(), file.mangled_name());
+        p.insert("ev".into(), json!("SPath"));
+        p.insert("i".into(), json!(self.nfile));
+        p.insert("from".into(), json!("local"));
+        self.evs.push(p);
         Ok(())
     }
     fn visit_additional_metadata(&mut self, md: &ZipStreamFileMetadata) -> ZipResult<()> {
